@@ -176,6 +176,17 @@ for p in ('C02', 'C03', 'C15', 'C12', 'C06'):
     PLANS[p]['quick'] = PLANS[p]['quick'] + [PROTO_Q]
     PLANS[p]['thorough'] = PLANS[p]['thorough'] + [PROTO_T]
 
+# argument arrays with three elements, so that a hole can sit between two elements (`.apply('s', [x, , y])`)
+PROTO_HOLES_Q = dict(scenario='block_expr', args=dict(policy=expr_profile([['Call'], ['Lit', 'Ident', 'Array'], ['Ident', 'Lit'], ['Ident']], max_args=(2, 0, 0, 0), names=['a', 'String']),
+                                                      pins=PROTO_PINS + [(r'^E/Call\.args\[1\]\.expr$', 'Expr', ['Array']), (r'^E/Call\.args\[0\]\.expr$', 'Expr', ['Lit', 'Ident'])], string_pins=PROTO_STRS,
+                                                      len_pins=[(r'^E/Call\.args$', [2]), (r'^E/Call\.args\[1\]\.expr/Array\.elems$', [2, 3])], opt_pins=[(r'^E/Call\.args\[[01]\]\.spread$', [0])],
+                                                      config=[dict(src='plusOperator', dst=None, operator=True, awc=False), dict(src='concat', dst='stringConcat', operator=False, awc=False), dict(src='substring', dst=None, operator=False, awc=False)]),
+                     label='X.prototype.<m>.call|apply(this, [e0, e1(, e2)]): this in {literal, identifier}, elements in {literal, identifier, hole, spread}')
+for p in ('C02', 'C03', 'C13'):
+    if p in PLANS:
+        PLANS[p]['quick'] = PLANS[p]['quick'] + [PROTO_HOLES_Q]
+        PLANS[p]['thorough'] = PLANS[p]['thorough'] + [PROTO_HOLES_Q]
+
 # three arguments: `.apply(this, [..], extra)` / `.call(this, x, y)` -- whatever follows the argument array is still evaluated
 PROTO3_Q = dict(scenario='block_expr', args=dict(policy=expr_profile([['Call'], ['Ident', 'Call', 'Array'], ['Ident', 'Call'], ['Ident']], max_args=(3, 1, 0, 0), names=['a', 'String'], spread=True),
                                                  pins=PROTO_PINS + [(r'^E/Call\.args\[1\]\.expr$', 'Expr', ['Array', 'Ident']), (r'^E/Call\.args\[0\]\.expr$', 'Expr', ['Ident'])], string_pins=PROTO_STRS, len_pins=[(r'^E/Call\.args$', [3])],
@@ -471,3 +482,6 @@ PLANS['C01']['quick'] = PLANS['C01']['quick'] + [SUPER_Q]
 PLANS['C01']['thorough'] = PLANS['C01']['thorough'] + [SUPER_Q]
 for p in ('C02', 'C03'):
     PLANS[p]['thorough'] = PLANS[p]['thorough'] + [SUPER_Q]
+
+PLANS['C13']['quick'] = PLANS['C13']['quick'] + [PROTO_HOLES_Q]
+PLANS['C13']['thorough'] = PLANS['C13']['thorough'] + [PROTO_HOLES_Q]
